@@ -106,14 +106,14 @@ CHECKS = {
         note="Parameter inheritance with several enclosing contexts that disagree is under-specified by the statement: skipped and counted. Later additions: derived dimension names in rules; contexts built with from_lines without a to-base function and with Context() + add_transformation; nested contexts that both declare parameters (each rule uses its own context's value); the bundled sp/boltzmann/energy contexts against c, h, k written in the check.",
         design="5/C11"),
     "C12": dict(
-        technique="model-based (stateful) testing: bounded-exhaustive breadth-first enumeration of operation sequences over a 21-letter alphabet on a fresh tiny registry, plus Hypothesis random sequences, each interpreted next to a reference stack model with a probe battery after every step; fault injection through four kinds of invalid activation",
+        technique="model-based (stateful) testing: bounded-exhaustive breadth-first enumeration of operation sequences over a 27-letter alphabet on a fresh tiny registry, plus Hypothesis random sequences, each interpreted next to a reference stack model with a probe battery after every step; fault injection through four kinds of invalid activation",
         text="Every sequence up to length 3 (4 in thorough) over enable/disable(0,1,2,all)/with-enter/with-exit/raise-inside-with/failing activation/define-new-unit "
              "is run on a fresh registry that has rule-only, redefinition-only, mixed and invalid contexts and a default system; after every operation the "
              "observable answers (rule conversions incl. two-hop chains, parameter-dependent values, redefined and dependent units through to(), "
              "get_root_units, to_root_units, get_base_units, prefixed units, compatible-unit listings, number of active contexts) must equal what the model's stack "
              "implies; a failing activation must raise and change nothing; after unwinding, the battery must equal the one recorded before the first activation. "
              "Random sequences up to 25 operations and a shared-Context check (two registries, re-entry with other parameters) complete it.",
-        note="The former known finding (base-units cache across context stacks) is repaired in /repo (1d885d8) and checked like everything else. Units defined while a redefining context is active are C13's clause. Later additions: per-call contexts (to/ito with a context name) in the operation alphabet; on_redefinition='raise' policy observed after every step.",
+        note="The former known finding (base-units cache across context stacks) is repaired in /repo (1d885d8) and checked like everything else. Units defined while a redefining context is active are C13's clause. Later additions: per-call contexts (to/ito with a context name) in the operation alphabet; on_redefinition='raise' policy observed after every step; activation with an unhashable parameter value (refused or accepted-and-disabled: nothing left behind).",
         design="5/C12"),
     "C13": dict(
         technique="model-based (stateful) testing with Hypothesis operation sequences: every answer of a long-lived registry is compared with the answer of a twin built fresh from the declarative state (differential against a fresh registry), each question put to an untouched copy of the twin; registry-isolation differential",
